@@ -351,6 +351,134 @@ class SchemaGetFieldVals(FnSpec):
         return [("provided-values-minus-constants", z3.ForAll([k], z3.And(res.has(k) == z3.And(b.has(k), z3.Not(consts.has(k))), z3.Implies(res.has(k), res.get_term(k) == b.get_term(k)))), "every provided value that is not a declared constant takes part in merging — also values under names the class does not declare (extra keys, fields of a subclass carried by a parent-typed partial); constants never do")]
 
 
+# --- to_partial / cast: which values of the source reach the partial -------------------------------------------------------------
+T5_DICT = "T5 pydantic: obj.dict(exclude_none=True) holds every field of obj whose value is not None (whether or not it counts as 'set'); cls.construct(**d) carries exactly the entries of d; validate_model(cls, obj) returns the valid entries and their names; parse_obj(d) validates exactly the entries of d"
+
+
+class Marker(SVal):
+    """an opaque python value identified by its description (a dict of an object, a pydantic result ...)"""
+
+    def __init__(self, *desc):
+        self.desc = desc
+
+    def py_truth(self, cx):
+        return True
+
+    def same(self, o):
+        return isinstance(o, Marker) and len(o.desc) == len(self.desc) and all((x.same(y) if isinstance(x, Marker) else x is y or (not isinstance(x, SVal) and x == y)) for x, y in zip(self.desc, o.desc))
+
+
+class SourceObj(SVal):
+    """the object handed to to_partial / cast: an instance of the partial class or its source model | another pydantic model | anything else (a dict)"""
+
+    def __init__(self, kind):
+        self.kind = kind
+
+    def py_isinstance(self, cx, c):
+        names = c if isinstance(c, (tuple, list)) else [c]
+        out = False
+        for n in names:
+            n = getattr(n, "name", n)
+            if n in ("ThisPartial", "ThisSource"):
+                out = out or self.kind == "same"
+            elif n == "BaseModel":
+                out = out or self.kind in ("same", "model")
+            elif n != "object":
+                raise Unsupported(f"isinstance against {n!r}")
+        return out
+
+    def py_getattr(self, cx, name):
+        from pyvc.engine import KwDict
+
+        if name == "__dict__":
+            return KwDict({"__entries_of__": Marker("__dict__", self)})
+        raise Unsupported("attribute " + name)
+
+    def meth_dict(self, cx, **kw):
+        return Marker("dict", self, tuple(sorted(kw.items())))
+
+
+class PartialCls(SVal):
+    name = "ThisPartial"
+
+    def py_getattr(self, cx, n):
+        if n == "__partial_src__":
+            c = PartialCls()
+            c.name = "ThisSource"
+            return c
+        raise Unsupported("class attribute " + n)
+
+    def meth_construct(self, cx, **kw):
+        return Marker("construct", tuple(sorted(kw.items(), key=lambda x: x[0])))
+
+    def meth_parse_obj(self, cx, d):
+        return Marker("parse_obj", d)
+
+    def meth_to_partial(self, cx, obj, **kw):
+        return Marker("to_partial", obj, tuple(sorted(kw.items())))
+
+
+def _kw(m, i=1):
+    return dict(m.desc[i]) if isinstance(m, Marker) and len(m.desc) > i else None
+
+
+class ToPartial(FnSpec):
+    file = "schema/partial.py"
+    qual = "PartialModel.to_partial"
+    props = ("C14",)
+
+    def init(self):
+        from pyvc.engine import KwDict
+
+        self.bindings["BaseModel"] = SClass("BaseModel")
+        self.bindings["validate_model"] = lambda cx, c, o: STuple((KwDict({"__entries_of__": Marker("valid-entries", o)}), Marker("valid-names", o), None))
+
+    def setup(self, cx):
+        kind = ["same", "model", "other"][cx.choose(3)]
+        ign = bool(cx.choose(2))
+        a = A(cls=PartialCls(), obj=SourceObj(kind), __kwargs__={}, ignore_invalid=ign)
+        a.kind, a.ign = kind, ign
+        return a
+
+    def raises(self, cx, a):
+        return {}
+
+    def ensures(self, cx, a, res):
+        r = res if isinstance(res, Marker) else Marker("?")
+        if a.kind == "same":
+            kw = _kw(r) if r.desc[0] == "construct" else None
+            ok = kw is not None and set(kw) == {"__entries_of__"} and kw["__entries_of__"].same(Marker("__dict__", a.obj))
+            return [("instance-of-the-model-carried-over-entirely", z3.BoolVal(bool(ok)), "an instance of this partial (or of its source model, or of a subclass) is taken over with ALL the values it holds, without validation")]
+        if a.ign:
+            kw = _kw(r) if r.desc[0] == "construct" else None
+            ok = kw is not None and set(kw) == {"__entries_of__", "_fields_set"} and kw["__entries_of__"].same(Marker("valid-entries", a.obj)) and kw["_fields_set"].same(Marker("valid-names", a.obj))
+            return [("valid-entries-kept", z3.BoolVal(bool(ok)), "with ignore_invalid exactly the entries that validate are kept")]
+        want = Marker("parse_obj", Marker("dict", a.obj, (("exclude_none", True),))) if a.kind == "model" else Marker("parse_obj", a.obj)
+        return [("every-provided-value-is-parsed", z3.BoolVal(r.same(want)), "another model is parsed from ALL its values that are not None (not only those counted as set, not only the declared ones); a dict is parsed as it is")]
+
+
+class CastSpec(FnSpec):
+    file = "schema/partial.py"
+    qual = "PartialModel.cast"
+    props = ("C14",)
+
+    def setup(self, cx):
+        kind = ["same", "model", "other"][cx.choose(3)]
+        ign = bool(cx.choose(2))
+        a = A(cls=PartialCls(), obj=SourceObj(kind), __kwargs__={}, ignore_invalid=ign)
+        a.kind, a.ign = kind, ign
+        return a
+
+    def raises(self, cx, a):
+        return {}
+
+    def ensures(self, cx, a, res):
+        if a.kind == "same":
+            return [("an-instance-is-returned-as-it-is", z3.BoolVal(res is a.obj), "casting an instance of the partial class returns that very object (identity, so nothing can be lost)")]
+        want = Marker("to_partial", a.obj, (("ignore_invalid", a.ign),))
+        return [("otherwise-to-partial", z3.BoolVal(isinstance(res, Marker) and res.same(want)), "anything else goes through to_partial with the caller's ignore_invalid")]
+
+
 def pairs_filter(interp, cx, fr, e):
     """`((k, v) for k, v in MAP.items() if P(k, v))` read as the sub-map of MAP (order is irrelevant to the callers)"""
     import ast
@@ -412,12 +540,12 @@ def build(reg):
 
     reg.set_class_home("PartialSchemas", "schema/core.py")
     reg.method_bindings[("PartialSchemas", "super._get_field_vals")] = lambda cx, me, obj: MapItems(cx.ghost["sgfv"].base)  # PartialFactory._get_field_vals: its own contract (GetFieldVals)
-    specs = [UpdateField(), MergeWith(), GetFieldVals(), SchemaGetFieldVals()]
+    specs = [UpdateField(), MergeWith(), GetFieldVals(), SchemaGetFieldVals(), ToPartial(), CastSpec()]
     for s in specs:
         reg.add(s)
     return {
         "verify": specs,
         "lemmas": [("field-merge-monoid", lemma_monoid)],
-        "trusted": [T5, "T4 list concatenation and set union are associative (used only in the lemma)"],
+        "trusted": [T5, T5_DICT, "T4 list concatenation and set union are associative (used only in the lemma)"],
         "assumptions": ["field values are abstracted to kinds None/list/set/model/other; `get_partial(type(v)).cast(v)` and nested merge_with are uninterpreted functions (the recursion is handled by merge_with's own contract)", "precondition: the two values of one field have the same kind unless one is None (type-consistent partials of one schema)"],
     }
